@@ -113,6 +113,14 @@ def miscOp (f : List String) : Option String :=
 
 def execOp (line : String) : String :=
   let f := (line.splitOn " ").filter (· ≠ "")
+  -- `mut <aztec op>`: the model is a pure function of its arguments, so the snapshot is stable by construction
+  match f with
+  | "mut" :: inner =>
+    (match barcodeOp 16 inner with
+     | some (.ok v) => viewLine v ++ " stable=1 input=1"
+     | some r => resLine r
+     | none => "bad-op")
+  | _ =>
   match barcodeOp 16 f with
   | some r => resLine r
   | none =>
